@@ -8,6 +8,8 @@ ElemDef == ValSet \cup {NULL}
 EmitOrder ==
     PrintT(<<"REPLAY", ToJson([op |-> "order", s |-> s, deg |-> OrderDeg,
         quant |-> SetToSeq({[q |-> q, m |-> m, e |-> DefQuantile(q, m)] : q \in Qs, m \in Methods}),
+        quant_near |-> SetToSeq({[q |-> qs[1], sg |-> qs[2], m |-> m, e |-> DefQuantileNear(qs[1], qs[2], m)] :
+                                  qs \in {x \in Qs \X {0 - 1, 1} : NearOK(x[1], x[2])}, m \in NearMethods}),
         pct_of |-> SetToSeq({[x |-> x, m |-> m, e |-> DefPercentileOf(x, m)] : x \in ElemDef, m \in PMethods}),
         ranks |-> SetToSeq({[rev |-> r, pct |-> p, e |-> DefRanks(r, p)] : r \in BOOLEAN, p \in BOOLEAN}),
         part |-> SetToSeq({[k |-> k, rev |-> r, want |-> DefPartition(k, r)] : k \in 0..(Len(s) + 1), r \in BOOLEAN})
